@@ -222,7 +222,33 @@ fn build_prog(t: &mut Tape) -> (Prog, Vec<&'static str>) {
     for _ in 0..n {
         let lit = mlstr::gen_literal(t);
         classes.push(lit.class);
-        match t.below(7) {
+        match t.below(8) {
+            7 => {
+                // three literals chained through method-call argument lists: S := L1.M(L2.N(X, L3.K()));
+                let l2 = mlstr::gen_literal(t);
+                let l3 = mlstr::gen_literal(t);
+                classes.push(l2.class);
+                classes.push(l3.class);
+                push(&mut p, "S", Kind::Ident, true, d0);
+                push(&mut p, ":=", Kind::Op, false, d0);
+                push(&mut p, &lit.text, Kind::TextMulti, false, d0);
+                push(&mut p, ".", Kind::Op, false, d0);
+                push(&mut p, "Replace", Kind::Ident, false, d0);
+                push(&mut p, "(", Kind::Op, false, d0);
+                push(&mut p, &l2.text, Kind::TextMulti, false, d0);
+                push(&mut p, ".", Kind::Op, false, d0);
+                push(&mut p, "Trim", Kind::Ident, false, d0);
+                push(&mut p, "(", Kind::Op, false, d0);
+                push(&mut p, "X", Kind::Ident, false, d0);
+                push(&mut p, ",", Kind::Op, false, d0);
+                push(&mut p, &l3.text, Kind::TextMulti, false, d0);
+                push(&mut p, ".", Kind::Op, false, d0);
+                push(&mut p, "Fmt", Kind::Ident, false, d0);
+                push(&mut p, "(", Kind::Op, false, d0);
+                push(&mut p, ")", Kind::Op, false, d0);
+                push(&mut p, ")", Kind::Op, false, d0);
+                push(&mut p, ")", Kind::Op, false, d0);
+            }
             0 => {
                 push(&mut p, "X", Kind::Ident, true, d0);
                 push(&mut p, ":=", Kind::Op, false, d0);
@@ -359,6 +385,7 @@ impl Prop for C12Prop {
         }
         let mut changed = false;
         let mut n_lit = 0;
+        let n_multi = ti.iter().filter(|t| t.kind == Kind::TextMulti).count();
         for (a, b) in ti.iter().zip(&to) {
             if a.kind != Kind::TextMulti {
                 continue;
@@ -375,6 +402,8 @@ impl Prop for C12Prop {
                     if li.contains('\r') {
                         f = f.fact("literal-has-cr");
                     }
+                    f = f.fact(if case.cfg.wrap_column <= 30 { "wrap<=30" } else { "wrap>30" });
+                    f = f.fact(if n_multi >= 3 { "literals>=3" } else { "literals<3" });
                     return Outcome::Fail(f);
                 }
                 Ok(cl) => {
